@@ -26,10 +26,10 @@ Inductive Climb : N -> option rtree -> list item -> rtree -> list item -> Prop :
     Climb q (Some lhs) (ISuffix d i :: r) t r'
 | C_suf_out q lhs d i r :
     inside d q = false -> Climb q (Some lhs) (ISuffix d i :: r) lhs (ISuffix d i :: r)
-| C_open q i r inner k r' t r'' :
-    Climb INF None r inner (IClose k :: r') -> Climb q (Some (RGroup i inner)) r' t r'' ->
-    Climb q None (IOpen i :: r) t r''
-| C_close q lhs k r : Climb q (Some lhs) (IClose k :: r) lhs (IClose k :: r)
+| C_open q b i r inner k r' t r'' :
+    Climb INF None r inner (IClose b k :: r') -> Climb q (Some (RGroup b i inner)) r' t r'' ->
+    Climb q None (IOpen b i :: r) t r''
+| C_close q lhs b k r : Climb q (Some lhs) (IClose b k :: r) lhs (IClose b k :: r)
 | C_end q lhs : Climb q (Some lhs) [] lhs [].
 
 Lemma Climb_sound q acc its t r :
@@ -42,8 +42,8 @@ Proof.
                  |q lhs d i r Hout
                  |q lhs d i r t r' Hin H IH
                  |q lhs d i r Hout
-                 |q i r inner k r' t r'' H1 IH1 H2 IH2
-                 |q lhs k r
+                 |q b i r inner k r' t r'' H1 IH1 H2 IH2
+                 |q lhs b k r
                  |q lhs].
   - destruct IH as [L F]. split; [simpl; lia|]. intros f Hf. destruct f as [|f]; [simpl in Hf; lia|].
     simpl. apply F. simpl in Hf. lia.
@@ -59,7 +59,7 @@ Proof.
   - split; [lia|]. intros f Hf. destruct f as [|f]; [simpl in Hf; lia|]. simpl. rewrite Hout. reflexivity.
   - destruct IH1 as [L1 F1]. destruct IH2 as [L2 F2]. simpl in L1. split; [simpl; lia|].
     intros f Hf. destruct f as [|f]; [simpl in Hf; lia|]. simpl in Hf.
-    simpl. rewrite F1 by lia. apply F2. lia.
+    simpl. rewrite F1 by lia. destruct b; simpl; apply F2; lia.
   - split; [lia|]. intros f Hf. destruct f as [|f]; [simpl in Hf; lia|]. reflexivity.
   - split; [lia|]. intros f Hf. destruct f as [|f]; [simpl in Hf; lia|]. reflexivity.
 Qed.
@@ -68,7 +68,7 @@ Qed.
    bracket is the call [climb INF None] of the IOpen case, which must end at a closing
    bracket *)
 Definition flimit (f : frame) : option N :=
-  match f with FGroup _ _ => Some INF | _ => ref_rank (frame_def f) end.
+  match f with FGroup _ _ _ => Some INF | _ => ref_rank (frame_def f) end.
 
 Definition frame_ranked (f : frame) : Prop := exists p, flimit f = Some p.
 
@@ -76,7 +76,7 @@ Definition rplug (f : frame) (t : rtree) : rtree :=
   match f with
   | FBin _ d k l => RBin d k (erase l) t
   | FPre _ d k => RPre d k t
-  | FGroup _ k => RGroup k t
+  | FGroup b _ k => RGroup b k t
   end.
 
 Lemma erase_plug f t : erase (plug f t) = rplug f (erase t).
@@ -85,7 +85,7 @@ Proof. destruct f; reflexivity. Qed.
 (* what the caller of a returned call consumes before it goes on *)
 Definition after_frame (f : frame) (its' its'' : list item) : Prop :=
   match f with
-  | FGroup _ _ => exists kc, its' = IClose kc :: its''
+  | FGroup b _ _ => exists kc, its' = IClose b kc :: its''
   | _ => its'' = its'
   end.
 
@@ -185,29 +185,33 @@ Qed.
 
 (* the frames closed by a closing bracket: every pending call returns at the bracket, the
    call of the opening bracket consumes it *)
-Lemma close_group_ranked : forall fs t fs1 t1, Forall frame_ranked fs -> close_group fs t = Some (fs1, t1) ->
+Lemma close_group_ranked b : forall fs t fs1 t1, Forall frame_ranked fs -> close_group b fs t = Some (fs1, t1) ->
   Forall frame_ranked fs1.
 Proof.
   induction fs as [|f r IH]; intros t fs1 t1 HF H; [discriminate|].
   inversion HF; subst. destruct f; cbn [close_group] in H.
   - eapply IH; eauto.
   - eapply IH; eauto.
-  - injection H as <- <-. assumption.
+  - destruct (bkind_eqb b0 b); [|discriminate]. injection H as <- <-. assumption.
 Qed.
 
-Lemma close_group_unwind k (its : list item) T :
-  forall fs t fs1 t1, Forall frame_ranked fs -> close_group fs t = Some (fs1, t1) ->
-  Unwind fs1 (Some (erase t1)) its T -> Unwind fs (Some (erase t)) (IClose k :: its) T.
+Lemma bkind_eqb_eq a b : bkind_eqb a b = true -> a = b.
+Proof. destruct a, b; intros H; try discriminate H; reflexivity. Qed.
+
+Lemma close_group_unwind b k (its : list item) T :
+  forall fs t fs1 t1, Forall frame_ranked fs -> close_group b fs t = Some (fs1, t1) ->
+  Unwind fs1 (Some (erase t1)) its T -> Unwind fs (Some (erase t)) (IClose b k :: its) T.
 Proof.
   induction fs as [|f r IH]; intros t fs1 t1 HF H HU; [discriminate|].
-  inversion HF as [|? ? [p Hp] HF']; subst. destruct f as [i d kk l|i d kk|i kk]; cbn [close_group] in H.
-  - simpl. exists p, (erase t), (IClose k :: its), (IClose k :: its). split; [exact Hp|].
+  inversion HF as [|? ? [p Hp] HF']; subst. destruct f as [i d kk l|i d kk|b' i kk]; cbn [close_group] in H.
+  - simpl. exists p, (erase t), (IClose b k :: its), (IClose b k :: its). split; [exact Hp|].
     split; [apply C_close|]. split; [reflexivity|]. change (RBin d kk (erase l) (erase t)) with (erase (plug (FBin i d kk l) t)).
     eapply IH; eauto.
-  - simpl. exists p, (erase t), (IClose k :: its), (IClose k :: its). split; [exact Hp|].
+  - simpl. exists p, (erase t), (IClose b k :: its), (IClose b k :: its). split; [exact Hp|].
     split; [apply C_close|]. split; [reflexivity|]. change (RPre d kk (erase t)) with (erase (plug (FPre i d kk) t)).
     eapply IH; eauto.
-  - injection H as <- <-. simpl. exists p, (erase t), (IClose k :: its), its. split; [exact Hp|].
+  - destruct (bkind_eqb b' b) eqn:Eb; [|discriminate H]. apply bkind_eqb_eq in Eb. subst b'.
+    injection H as <- <-. simpl. exists p, (erase t), (IClose b k :: its), its. split; [exact Hp|].
     split; [apply C_close|]. split; [exists k; reflexivity|]. exact HU.
 Qed.
 
@@ -234,7 +238,7 @@ Proof.
   - inversion HI as [|? ? Hit HI']; subst. cbn [spine_run] in H.
     destruct (spine_step it n (fs, acc)) as [[fs2 acc2]|] eqn:Es; [|discriminate].
     specialize (IH (next_index it n) fs2 acc2 fs' t' HI').
-    destruct it as [d k|d k|d k|d k|k|k]; destruct acc as [t|]; cbn [spine_step] in Es; try discriminate.
+    destruct it as [d k|d k|d k|d k|b k|b k]; destruct acc as [t|]; cbn [spine_step] in Es; try discriminate.
     + (* value *)
       injection Es as <- <-. specialize (IH HF H HG). cbn [option_map erase] in *.
       cbn [item_ranked] in Hit. rewrite (norm_atom_store d fs Hit) in IH.
@@ -272,15 +276,15 @@ Proof.
         eapply limit_inside; [exact Hit|eapply pop_head; exact Epop|exact Hl].
     + (* opening bracket *)
       injection Es as <- <-.
-      assert (HF2 : Forall frame_ranked (FGroup n k :: fs)) by (constructor; [exists INF; reflexivity|exact HF]).
+      assert (HF2 : Forall frame_ranked (FGroup b n k :: fs)) by (constructor; [exists INF; reflexivity|exact HF]).
       specialize (IH HF2 H HG). cbn [option_map Unwind] in IH.
       destruct IH as (p' & rhs & its' & its'' & Hp' & Hc & Ha & HU). cbn [flimit] in Hp'. injection Hp' as <-.
       cbn [after_frame] in Ha. destruct Ha as [kc ->]. cbn [rplug] in HU.
       cbn [option_map]. eapply Unwind_head; [|exact HU].
       intros q t0 r0 _ Hc0. eapply C_open; [exact Hc|exact Hc0].
     + (* closing bracket *)
-      destruct (close_group fs t) as [[fs1 t1]|] eqn:Ecl; [|discriminate]. injection Es as <- <-.
-      pose proof (close_group_ranked _ _ _ _ HF Ecl) as HF1. specialize (IH HF1 H HG).
+      destruct (close_group b fs t) as [[fs1 t1]|] eqn:Ecl; [|discriminate]. injection Es as <- <-.
+      pose proof (close_group_ranked _ _ _ _ _ HF Ecl) as HF1. specialize (IH HF1 H HG).
       cbn [option_map] in *. eapply close_group_unwind; eauto.
 Qed.
 
